@@ -129,6 +129,19 @@ func c08run(c *mc.Ctx, k *c08case, getBound int) {
 		}
 		if !unreachable && !tableless {
 			c.Fail("wants-refused", "every want is reachable from a ref and has its table, yet Process refused: %v; %s", err, desc)
+			return
+		}
+		// a refusal leaves nothing behind: repeating the request on the same finder is refused again,
+		// and the finder selects nothing
+		if unreachable {
+			if _, err2 := f.Process(wantSums, nil, true); err2 == nil {
+				c.Fail("wants-not-refused", "wants %v are not reachable from any ref: the first Process refused them, the same request repeated on the same finder was accepted; %s", model.Bits(k.wants&^reach), desc)
+				return
+			}
+			if cs, _ := f.CommitsToSend(); len(cs) > 0 {
+				c.Fail("unreachable-sent", "after refusing the wants the finder still selects %d commits; %s", len(cs), desc)
+				return
+			}
 		}
 		c.Outcome("refused")
 		return
@@ -395,7 +408,7 @@ func init() {
 			"commit-time order {ascending, descending, equal}, an unknown hash first/last among the haves, reversed have order, split of the haves into two Process rounds, done flag, one table absent, " +
 			"iteration order of the finder's want set (overlay-owned map order; all permutations); " +
 			"plus diamond and criss-cross ladders of 1..16 (20) levels for the read-count bound. Each negotiation runs the real ClosedSetsFinder over real commit objects and the SQL ref store and is compared " +
-			"with bitmask reachability: closure, parent-first order, nothing unreachable, depth-limited tables, refusal of unreachable wants, acks, reads <= 8(n+e)^2+64. " +
+			"with bitmask reachability: closure, parent-first order, nothing unreachable, depth-limited tables, refusal of unreachable wants (also when the refused request is repeated on the same finder), acks, reads <= 8(n+e)^2+64. " +
 			"non-trivial = at least two commits sent or a common commit acknowledged; distinct by full case description",
 		Assumptions: []string{
 			"a want whose own table is absent may be refused or accepted (the statement only requires refusal of unreachable wants)",
